@@ -1,10 +1,15 @@
 """C18 - end-of-session processing completes for every test program."""
 from . import assign
 from .core import core_check
-from .. import assign_replay, tlc
+from .. import assign_replay, partial_replay, tlc
 
 
 def _structural(chk):
+    # comparisons that raise half way through the structural assignment (spec/ISPartial.tla)
+    if chk.quick:
+        partial_replay.run(chk, k=2, max_cmp=3)
+    else:
+        partial_replay.run(chk, k=3, max_cmp=3, stride=8)
     sizes = assign.SIZES[chk.tier]
     for shape in ("inner", "nest", "call"):
         ts_mc, ts, st, keep = sizes[shape]
